@@ -45,6 +45,17 @@ PRELUDE = [
      [S("inc")],
      [S("if"), [S("<="), S("n"), 0], [S("if"), [S("="), S("what"), 0], [S("error"), Q(S("tail-fail")), 1], [S("boom")]], [S("tailfail"), [S("-"), S("n"), 1], S("what")]]],
     [S("defmacro"), S("mfail"), [S("x")], [S("inc")], [S("if"), [S("="), S("x"), 0], [S("error"), Q(S("macro-fail")), 1], [S("quasiquote"), [S("inc")]]]],
+    # a function living in another package whose NON-LAST body forms can fail (the package swap made for the
+    # call must be undone on that exit path too)
+    [S("in-package"), Q(S("lib"))],
+    [S("defun"), S("lib-fail"), [S("what")],
+     [S("user:inc")],
+     [S("cond"), [[S("="), S("what"), 0], [S("error"), Q(S("lib-fail")), 1]], [[S("="), S("what"), 1], [S("boom")]], [[S("="), S("what"), 2], [S("unbound-in-lib")]], [S(":else"), 0]],
+     [S("probe"), Q(S("in-lib"))],
+     [S("if"), [S("="), S("what"), 3], [S("error"), Q(S("lib-last")), 1], Q(S("lib-done"))]],
+    [S("defun"), S("lib-tail"), [S("n"), S("what")], [S("user:inc")], [S("if"), [S("<="), S("n"), 0], [S("lib-fail"), S("what")], [S("lib-tail"), [S("-"), S("n"), 1], S("what")]]],
+    [S("export"), Q(S("lib-fail")), Q(S("lib-tail"))],
+    [S("in-package"), Q(S("user"))],
 ]
 STATE = [S("probe"), Q(S("state")), S("counter")]
 
@@ -72,6 +83,15 @@ def pool(rnd):
         lambda: ([[S("unbound-sym")]], "load"),
         lambda: ([[S("set"), Q(S("counter")), [S("+"), S("counter"), 100]], [S("car"), 5]], "load"),
         lambda: ([[S("dotimes"), [S("i"), 3], [S("inc")], [S("if"), [S("="), S("i"), 1], [S("error"), Q(S("loop-fail")), S("i")], []]]], "load"),
+        # cross-package calls failing on different exit paths, handled in the same load: what follows must run in
+        # the caller's package
+        lambda: ([[S("handler-bind"), [[S("condition"), hnd("c", [[S("probe"), Q(S("handled")), S("c")], Q(S("h"))])]], [S("lib:lib-fail"), rnd.randrange(5)]],
+                  [S("probe"), Q(S("after-handled"))], [S("set"), Q(S("marker")), 1], STATE], "load"),
+        lambda: ([[S("ignore-errors"), [S("lib:lib-fail"), rnd.randrange(5)]], [S("probe"), Q(S("after-ignored"))], [S("set"), Q(S("marker2")), 2], STATE], "load"),
+        lambda: ([[S("ignore-errors"), [S("lib:lib-tail"), rnd.randrange(3), rnd.randrange(5)]], [S("probe"), Q(S("after-tail"))], STATE], "load"),
+        lambda: ([[S("lib:lib-fail"), rnd.randrange(5)]], "load"),
+        lambda: ([[S("lib:lib-fail"), rnd.randrange(5)]], "call"),
+        lambda: ([[S("lib:lib-tail"), rnd.randrange(3), rnd.randrange(5)]], "call"),
         # other entry points: FunCallContext, MacroCall, SpecialOpCall
         lambda: ([[S("deep"), rnd.randrange(4), rnd.randrange(3)]], "call"),
         lambda: ([[S("tailfail"), rnd.randrange(3), rnd.randrange(2)]], "call"),
@@ -166,7 +186,7 @@ def _run(V, work, tier):
                 bad.append("a condition is still pending for rethrow")
             if rest["ctxleak"]:
                 bad.append("the evaluation context was not restored")
-            if md[j] == "load" and rest["pkg"] != me["pkg"]:
+            if rest["pkg"] != me["pkg"]:
                 bad.append("current package is %s, expected %s" % (rest["pkg"], me["pkg"]))
             if bad:
                 V.add(None, "runtime not clean after evaluation %d (%s entry point, budget %s): %s" % (j, md[j], budget or "none", "; ".join(bad)),
